@@ -791,7 +791,23 @@ class BuiltinsMixin(AccessMixin):
             return None
         if isinstance(obj, (int, Sym)) and not isinstance(obj, bool):
             if name == "to_bytes":
-                return I.mk("int.to_bytes", lambda a, k, n, f: Unknown("to_bytes"))
+                def to_bytes(a, k, n, f):
+                    length = norm_int(a[0] if a else k.get("length", 1))
+                    order = a[1] if len(a) > 1 else k.get("byteorder", "big")
+                    if not isinstance(length, int) or order not in ("big", "little"):
+                        return Unknown("to_bytes with dynamic length / byte order")
+                    cells = []
+                    for i in range(length):
+                        cells.append(norm_int(sym_binop("&", sym_binop(">>", obj, 8 * i), 0xFF)) if not isinstance(obj, int)
+                                     else (obj >> (8 * i)) & 0xFF)
+                    if isinstance(obj, int) and (obj < 0 or obj >> (8 * length)):
+                        raise PyRaise(Instance(I.bclasses["OverflowError"], ("int too big to convert",)), n, f.where(n))
+                    # (a symbolic value wider than the array raises OverflowError at run time: the caller's rule sees the
+                    # lost bits as missing provenance)
+                    if order == "big":
+                        cells.reverse()
+                    return Buf(cells=cells, origin=f.where(n))
+                return I.mk("int.to_bytes", to_bytes)
             if name == "bit_length":
                 return I.mk("int.bit_length", lambda a, k, n, f: obj.bit_length() if isinstance(obj, int) else Unknown("bit_length"))
             return None
